@@ -1204,6 +1204,13 @@ def write_history_probe(chk, exe, root, stats, ncases):
                 key = "getdata/history-dependent/after-write/%s" % kind
                 if c.here_at is not None and k > c.here_at:
                     key = K_PUTHERE
+                else:
+                    # the listed re-seek finding: the look-back of a fresh handle ends in _GD_Seek's GD_E_RANGE, a handle
+                    # that still holds the start value skips the look-back -- same samples, only the error differs (no samples where the MPLEX is nested)
+                    th, tf = hl.split(), fl.split()
+                    if (len(th) > 2 and len(tf) > 2 and (th[2:] == tf[2:] or tf[2] == "0") and th[1] == "0" and tf[1] == "-8"
+                            and any(f[0] == op.split()[1] and f[7] for f in c.fields)):
+                        key = TAGKEY["mplexseek"]
                 stats["bykey"][key] = stats["bykey"].get(key, 0) + 1
                 if key in seen:
                     if key == K_PUTHERE:
